@@ -112,6 +112,7 @@ func (m *meekServer) serve(name string, conn *simnet.Conn) {
 }
 
 func runC16(c *harness.Ctx) {
+	defer maybeWoven(c)()
 	t := c.T
 	c.S.ArmSelect()
 	c.S.MaxSteps = 1500000
